@@ -134,12 +134,16 @@ def _composition(rng, n, parts):
     return [edges[i + 1] - edges[i] for i in range(parts)]
 
 
-def _foreign_fit(rng, kind, D, F, E, same_dim=True):
+def _foreign_fit(rng, kind, D, F, E, same_dim=True, same_shape=None):
     K = int(rng.randint(2, 4))
     d = D if same_dim else D + int(_choice(rng, [-1, 1, 2]))
     d = max(2, d)
     N = int(rng.randint(3 * d, 6 * d + 4))
     f = F if kind == 'gcacgmm' else int(_choice(rng, [F, F, 0, 2]))
+    if same_shape is not None and same_dim and rng.randint(2):
+        # an equally shaped problem with other data (the usual way a trainer
+        # object is re-used)
+        K, N, f = same_shape
     if kind == 'gcacgmm':
         f = max(1, f)
     op = {'op': 'foreign_fit', 'K': K, 'D': d, 'F': f, 'N': N, 'E': E,
@@ -197,7 +201,8 @@ def generate(run_seed, tier='quick'):
             ops.append({'op': 'draws', 'k': int(rng.randint(1, 50))})
         else:
             ops.append(_foreign_fit(rng, kind, D, F, E,
-                                    same_dim=bool(rng.randint(4))))
+                                    same_dim=bool(rng.randint(4)),
+                                    same_shape=(K, N, F)))
     if kind == 'cacgmm' and rng.randint(3):
         # split / restart / cancel schedule
         segs = _composition(rng, n, int(rng.randint(1, 5)))
@@ -212,7 +217,8 @@ def generate(run_seed, tier='quick'):
             seg_ids.append(len(ops) - 1)
             if rng.randint(3) == 0:
                 ops.append(_foreign_fit(rng, kind, D, F, E,
-                                        same_dim=bool(rng.randint(3))))
+                                        same_dim=bool(rng.randint(3)),
+                                        same_shape=(K, N, F)))
             if rng.randint(5) == 0:
                 ops.append({'op': 'draws', 'k': int(rng.randint(1, 50))})
         if len(seg_ids) > 1 and rng.randint(2):
